@@ -405,6 +405,10 @@ class GraphBasedModelConstructor:
             # logger.debug(">>> Considering path " + str(path))
             intron_path = path[1:-1]
             if not intron_path: continue
+            if any(intron_path[i][1] + 1 >= intron_path[i + 1][0] for i in range(len(intron_path) - 1)):
+                # collapsing similar splice sites in the graph may leave two overlapping or touching introns next to each other:
+                # the exon between them does not exist and the fused intron is in no read
+                continue
             transcript_range = (path[0][1], path[-1][1])
             novel_exons = get_exons(transcript_range, list(intron_path))
             count = self.path_storage.paths[path]
